@@ -1168,7 +1168,7 @@ func genPlan(t *rapid.T, label string) listPlan {
 		}
 		p.Dirs = append(p.Dirs, pageDir{Kind: "empty"})
 	}
-	p.Trailing = rapid.IntRange(0, 3).Draw(t, label+".trailingEmpty") == 0
+	p.Trailing = rapid.IntRange(0, 3).Draw(t, label+".trailingEmpty") == 3
 	return p
 }
 
@@ -1181,7 +1181,7 @@ func genCount(t *rapid.T, p int, label string) int {
 }
 
 func smallCount(t *rapid.T, p int, label string) int {
-	if rapid.IntRange(0, 11).Draw(t, label+".big") == 0 {
+	if rapid.IntRange(0, 11).Draw(t, label+".big") == 11 {
 		return p + 1
 	}
 	return rapid.SampledFrom([]int{0, 1, 1, 2, 3, 5}).Draw(t, label+".count")
@@ -1259,7 +1259,7 @@ func genWipeout(t *rapid.T, small bool) *scenario {
 	sc := &scenario{Op: "wipeout", RingExists: true, Decoy: rapid.Bool().Draw(t, "decoy")}
 	nk := rapid.SampledFrom([]int{0, 1, 1, 1, 1, 2, 2, 3}).Draw(t, "nkeys")
 	bigRing := false
-	if !small && rapid.IntRange(0, 9).Draw(t, "bigRing") == 0 {
+	if !small && rapid.IntRange(0, 9).Draw(t, "bigRing") == 9 {
 		bigRing = true
 		nk = rapid.SampledFrom([]int{ksz - 1, ksz, ksz, ksz + 1, 2 * ksz, 2*ksz + 1}).Draw(t, "nkeysBig")
 	}
@@ -1307,6 +1307,9 @@ func genBootstrap(t *rapid.T, small bool) *scenario {
 			n = smallCount(t, vsz, "target")
 		} else {
 			n = genCount(t, vsz, "target")
+		}
+		if !small && n == 0 && rapid.IntRange(0, 3).Draw(t, "target.notEmpty") != 0 {
+			n = vsz // zero-version keys are barely judged; keep them rare
 		}
 		bases := deadStates
 		if rapid.IntRange(0, 5).Draw(t, "anyBase") == 0 {
@@ -1378,12 +1381,21 @@ func recordLifecycle(name string, sc *scenario, res *result, expCls string) {
 			maxListed = ch.total
 		}
 	}
-	paging := strings.Join(keysOf(pagingSet), ",")
-	if paging == "" {
-		paging = "no-listing"
-	}
+	atoms := map[string]bool{}
 	for cc := range pagingSet {
 		ev.Class(name, "paging:"+cc)
+		for _, a := range strings.Split(cc, "+") {
+			if a != "single-short-page" && a != "full-pages-short-last" {
+				atoms[a] = true
+			}
+		}
+	}
+	paging := strings.Join(keysOf(atoms), "+")
+	switch {
+	case len(pagingSet) == 0:
+		paging = "no-listing"
+	case paging == "":
+		paging = "plain(full-pages,short-last)"
 	}
 	cnt := "none-listed"
 	if maxListed >= 0 {
@@ -1404,7 +1416,11 @@ func recordLifecycle(name string, sc *scenario, res *result, expCls string) {
 		outcomeCls = "error"
 	}
 	ev.Class(name, "returned:"+outcomeCls)
-	ev.Case(name, nontrivial, scenarioCanon(sc)+"|"+expCls, "vers="+cnt+"/"+paging, func() any {
+	class := "vers=" + cnt + "/" + paging
+	if sc.Op == "rotate" {
+		class = expCls
+	}
+	ev.Case(name, nontrivial, scenarioCanon(sc)+"|"+expCls, class, func() any {
 		return map[string]any{"scenario": describe(sc), "calls": m.calls, "bound": m.bound, "returned": res.name, "error": fmt.Sprint(res.err), "expectation": expCls}
 	})
 }
@@ -1514,7 +1530,7 @@ const lifecycleRuleTail = " Paging of every listing is drawn per page among the 
 func TestWipeout(t *testing.T) {
 	const name = "lifecycle/wipeout"
 	ev.Rule(name, "key ring with 0..3 keys (1 in 10: p-1..2p+1 keys of 0..2 versions to page the key listing), versions per key emphasising {0,1,p-1,p,p+1,2p-1,2p,2p+1} else 0..3p+2 (p = page size the code requests), states = base state of the ten + overrides at page-boundary positions, optional decoy ring. Oracle: Wipeout terminates; afterwards no version of any key of the ring is ENABLED/DISABLED; every initially ENABLED/DISABLED version got exactly one destroy call, every other version and the decoy none."+lifecycleRuleTail)
-	checks(ev.Scale(300, 5000))
+	checks(ev.Scale(1500, 5000))
 	rapid.Check(t, func(t *rapid.T) {
 		sc := genWipeout(t, false)
 		res := runScenario(sc)
@@ -1544,7 +1560,7 @@ func TestWipeout(t *testing.T) {
 func TestBootstrap(t *testing.T) {
 	const name = "lifecycle/bootstrap"
 	ev.Rule(name, "CreateNewRootKey / CreateFirstSigningKey on a fresh key (1 in 6; ring present or not, keep_going or not) or an existing key with versions emphasising the page boundaries, base state mostly not usable + ENABLED/PENDING_GENERATION overrides at first/last/page-boundary positions; versions created by the service start ENABLED or PENDING_GENERATION; a pending version resolves at its first poll to ENABLED or any other state, or never (the model then ends the caller's context inside the poll, so no real sleep). Oracle: terminates; if the key has an ENABLED version one of them is returned and nothing is created; else if it has PENDING_GENERATION versions one of them is polled, nothing is created, and it is returned iff it became ENABLED; else exactly one version is created and returned iff ENABLED; a returned name is always an ENABLED version of the target key. Zero-version keys and AlreadyExists without keep_going are not judged beyond that."+lifecycleRuleTail)
-	checks(ev.Scale(400, 5000))
+	checks(ev.Scale(2000, 5000))
 	rapid.Check(t, func(t *rapid.T) {
 		sc := genBootstrap(t, false)
 		res := runScenario(sc)
@@ -1559,7 +1575,7 @@ func TestBootstrap(t *testing.T) {
 func TestRotation(t *testing.T) {
 	const name = "lifecycle/rotation"
 	ev.Rule(name, "CreateNewSigningKeyVersion on an existing (9 in 10) key with 0..p versions in any states; the created version starts ENABLED or PENDING_GENERATION and resolves at first poll to ENABLED / any other state / never (context ends inside the poll). Oracle: terminates within the bound; exactly one CreateCryptoKeyVersion; returns (name,nil) iff the new version is ENABLED in the service, and the name is that version's; a missing key yields an error. Non-trivial = new version not ENABLED at once. Distinct = (existing states, outcome).")
-	checks(ev.Scale(300, 3000))
+	checks(ev.Scale(600, 3000))
 	rapid.Check(t, func(t *rapid.T) {
 		sc := genRotate(t)
 		res := runScenario(sc)
@@ -1574,7 +1590,7 @@ func TestRotation(t *testing.T) {
 func TestFaults(t *testing.T) {
 	const name = "lifecycle/faults"
 	ev.Rule(name, "small scenario of every operation (wipeout, bootstrap-root, bootstrap-signing, rotate, destroy; 0..5 versions, 1 in 12 p+1; drawn paging) run once without faults to count its N service calls (KMS and IAM), then re-run on a fresh model with one service error (code drawn from Unavailable/Internal/PermissionDenied/DeadlineExceeded/ResourceExhausted/NotFound/FailedPrecondition/Aborted/plain error) at EVERY call index 0..N-1, then with a drawn multi-fault set, then with the context cancelled beforehand. Oracle: terminates within the bound; the operation returns an error (faults on CreateKeyRing are not judged); a name returned without error is an ENABLED version of the target; no version is destroyed twice or when not destroyable. Non-trivial = all. Distinct = (scenario shape, faulted call index/method).")
-	checks(ev.Scale(150, 2500))
+	checks(ev.Scale(400, 2500))
 	rapid.Check(t, func(t *rapid.T) {
 		var sc *scenario
 		switch rapid.SampledFrom([]string{"wipeout", "wipeout", "bootstrap", "bootstrap", "rotate", "destroy"}).Draw(t, "op") {
@@ -1910,7 +1926,7 @@ func lenBucket(n int) string {
 func TestSignResponses(t *testing.T) {
 	const name = "sign/responses"
 	ev.Rule(name, "Signer.Sign with a drawn digest (32 bytes, sometimes 0/20/48/64), key version name, signer options (1 in 2 the documented &rsa.PSSOptions{SaltLength: PSSSaltLengthEqualsHash, Hash: SHA256}; else salt 32/auto/20, SHA-384/512/1/none, PKCS#1 v1.5 SHA-256, a non-PSS custom type, nil) against a model service that validates the request checksums like the real one and answers honestly or with exactly one corruption: one signature bit flipped, signature truncated/extended, signature_crc32c absent / +-1 / one bit flipped / of the digest / of another signature / of the empty string / IEEE polynomial / +-2^32, verified_data_crc32c or verified_digest_crc32c or both cleared, or a service error. Oracle: (sig,nil) => options were PSS/SHA-256/salt=hash length, a response exists, CRC32C(response signature) == response signature_crc32c, both verified flags set, sig == response signature bytes; honest response + documented options => returned. Non-trivial = corrupted response or non-documented options. Distinct = (options, response kind, signature length, bit).")
-	checks(ev.Scale(3000, 5000))
+	checks(ev.Scale(6000, 20000))
 	rapid.Check(t, func(t *rapid.T) {
 		spec := &signSpec{}
 		dl := rapid.SampledFrom([]int{32, 32, 32, 32, 32, 0, 20, 48, 64}).Draw(t, "digestLen")
